@@ -280,6 +280,7 @@ class InterpolatedLinearOperator(LinearOperator):
         n_left_interp = self.left_interp_indices.size(-1)
         n_right_interp = self.right_interp_indices.size(-1)
         n_inducing = right_res.size(-2)
+        n_left_inducing = left_res.size(-2)
 
         # left_interp_values grad
         right_interp_right_res = self.base_linear_op._matmul(right_res).contiguous()
@@ -287,13 +288,13 @@ class InterpolatedLinearOperator(LinearOperator):
         batch_size = batch_shape.numel()
         if len(batch_shape):
             batch_offset = torch.arange(0, batch_size, dtype=torch.long, device=self.device).view(*batch_shape)
-            batch_offset.unsqueeze_(-1).unsqueeze_(-1).mul_(n_inducing)
+            batch_offset.unsqueeze_(-1).unsqueeze_(-1).mul_(n_left_inducing)
             batched_right_interp_indices = self.right_interp_indices
-            batched_left_interp_indices = (self.left_interp_indices + batch_offset).view(-1)
+            batched_left_interp_indices = (self.left_interp_indices + batch_offset).reshape(-1)
         else:
-            batched_left_interp_indices = self.left_interp_indices.view(-1)
+            batched_left_interp_indices = self.left_interp_indices.reshape(-1)
 
-        flattened_right_interp_right_res = right_interp_right_res.view(batch_size * n_inducing, n_vecs)
+        flattened_right_interp_right_res = right_interp_right_res.view(batch_size * n_left_inducing, n_vecs)
         selected_right_vals = flattened_right_interp_right_res.index_select(0, batched_left_interp_indices)
         selected_right_vals = selected_right_vals.view(*batch_shape, n_left_rows, n_left_interp, n_vecs)
         left_values_grad = (selected_right_vals * left_vecs.unsqueeze(-2)).sum(-1)
@@ -305,9 +306,9 @@ class InterpolatedLinearOperator(LinearOperator):
         if len(batch_shape):
             batch_offset = torch.arange(0, batch_size, dtype=torch.long, device=self.device).view(*batch_shape)
             batch_offset.unsqueeze_(-1).unsqueeze_(-1).mul_(n_inducing)
-            batched_right_interp_indices = (self.right_interp_indices + batch_offset).view(-1)
+            batched_right_interp_indices = (self.right_interp_indices + batch_offset).reshape(-1)
         else:
-            batched_right_interp_indices = self.right_interp_indices.view(-1)
+            batched_right_interp_indices = self.right_interp_indices.reshape(-1)
 
         flattened_left_interp_left_res = left_interp_left_res.view(batch_size * n_inducing, n_vecs)
         selected_left_vals = flattened_left_interp_left_res.index_select(0, batched_right_interp_indices)
